@@ -1,3 +1,4 @@
+import SedVerif.Model.EF
 /-!
 # Model of the name-matching machinery (C07, C09)
 
@@ -11,7 +12,7 @@
 
 The model follows the code's mechanism: index lists produced by `argsort`, fancy indexing
 (`gather?`, where `none` is numpy's `IndexError`), the code's own post-checks (→ `Except`).
-No imports.  Everything lives in `SF.Match` so that the short names (`argsort…`, `gather?`) cannot
+Only `Model/EF.lean` (extended floats, for the NaN-skipping ranges) is imported.  Everything lives in `SF.Match` so that the short names (`argsort…`, `gather?`) cannot
 clash with other model files.
 -/
 namespace SF.Match
@@ -23,6 +24,8 @@ inductive MErr where
   | namesMismatch   -- "Model names in SED cube and parameter file do not match"
   | noSeds          -- "No SEDs found"
   | keyError        -- `additional[par][name]` missing
+  | dupColumn       -- "Parameter {par} already exists in table"
+  | noModelName     -- "Input table should contain a MODEL_NAME column"
   deriving DecidableEq, Repr
 
 def MErr.toString : MErr → String
@@ -31,6 +34,8 @@ def MErr.toString : MErr → String
   | .namesMismatch => "namesMismatch"
   | .noSeds => "noSeds"
   | .keyError => "keyError"
+  | .dupColumn => "dupColumn"
+  | .noModelName => "noModelName"
 
 /-! ## numpy primitives -/
 
@@ -232,6 +237,39 @@ def filterTableAdd (table : List (String × V)) (modelName : List String)
     | none => .error .keyError
     | some r => .ok r
 
+/-- `table_sorted[par][i] = additional[par][name.strip()]` for every row `i`: one more value per row;
+    `none` = `KeyError` -/
+def fillCol (d : List (String × K)) : List (String × V × List K) → Option (List (String × V × List K))
+  | [] => some []
+  | r :: rs =>
+    match d.lookup (strip r.1), fillCol d rs with
+    | some v, some t => some ((r.1, r.2.1, r.2.2 ++ [v]) :: t)
+    | _, _ => none
+
+/-- the loop `for par in additional:` of `filter_table`, one parameter after the other: refuse a
+    parameter whose name is already a column (the table's own or one added before), then fill its
+    column -/
+def attachCols : List String → List (String × List (String × K)) → List (String × V × List K) →
+    Except MErr (List (String × V × List K))
+  | _, [], rows => .ok rows
+  | cols, (key, d) :: rest, rows =>
+    if cols.contains key then .error .dupColumn
+    else
+      match fillCol d rows with
+      | none => .error .keyError
+      | some rows' => attachCols (cols ++ [key]) rest rows'
+
+/-- `FitInfo.filter_table(input_table, additional)` with its guards, in the code's order: the table
+    must have a `MODEL_NAME` column (`cols` are the table's column names); subset / rank-gather /
+    post-check; then the `additional` loop -/
+def filterTableFull (cols : List String) (table : List (String × V)) (modelName : List String)
+    (addl : List (String × List (String × K))) : Except MErr (List (String × V × List K)) :=
+  if !cols.contains "MODEL_NAME" then .error .noModelName
+  else
+    match filterTable table modelName with
+    | .error e => .error e
+    | .ok sorted => attachCols cols addl (sorted.map (fun r => (r.1, r.2, [])))
+
 /-- `t['MODEL_NAME'] = np.char.strip(t['MODEL_NAME']); t.sort('MODEL_NAME')` -/
 def prepTable (rows : List (String × V)) : List (String × V) :=
   (rows.map (fun r => (strip r.1, r.2))).mergeSort (fun a b => strLe a.1 b.1)
@@ -256,6 +294,35 @@ def maxL (x : K) (xs : List K) : K := xs.foldl (fun m y => if m < y then y else 
 def paramRanges : List K → Option (K × K × K)
   | [] => none
   | x :: xs => some (minL x xs, x, maxL x xs)
+
+/-! ### the same on doubles that may be NaN or infinite -/
+
+section nanRanges
+variable {K : Type} [LT K] [DecidableLT K]
+
+def isNan : EF K → Bool
+  | .nan => true
+  | _ => false
+
+/-- `np.nanmin(col)`: NaNs are skipped, infinities take part; an all-NaN column gives NaN -/
+def nanMin (col : List (EF K)) : EF K :=
+  match col.filter (fun x => !isNan x) with
+  | [] => .nan
+  | v :: vs => vs.foldl (fun m y => if EF.lt y m then y else m) v
+
+/-- `np.nanmax(col)` -/
+def nanMax (col : List (EF K)) : EF K :=
+  match col.filter (fun x => !isNan x) with
+  | [] => .nan
+  | v :: vs => vs.foldl (fun m y => if EF.lt m y then y else m) v
+
+/-- `(np.nanmin(col), col[0], np.nanmax(col))` as `write_parameter_ranges` prints it; `none` = the
+    `'-'` placeholders for zero fits -/
+def paramRangesEF : List (EF K) → Option (EF K × EF K × EF K)
+  | [] => none
+  | x :: xs => some (nanMin (x :: xs), x, nanMax (x :: xs))
+
+end nanRanges
 
 /-- `Source.n_data`: `np.sum((valid == 1) | (valid == 4))` -/
 def nData (flags : List Nat) : Nat := flags.countP (fun f => f == 1 || f == 4)
